@@ -163,8 +163,11 @@ def p_savedb(chk):
     chk.prove("qserve.Main.savedb", harness, ex, targets=[fn])
     import ast
     from pyvc import source
-    run = ast.unparse(source.module(QSERVE).find("Main.run"))
-    chk.static("qserve.Main.run.saves_in_finally", "finally:\n            self.savedb()" in run or "finally:\n        self.savedb()" in run, "savedb() in the server loop's finally")
+    run_fn = source.module(QSERVE).find("Main.run")
+    # the try statement around the server loop calls self.savedb() in its finally block, outside any condition
+    loop_try = [t for t in ast.walk(run_fn) if isinstance(t, ast.Try) and any("run_forever" in ast.unparse(b) for b in t.body)]
+    saves = bool(loop_try) and all(any(isinstance(st, ast.Expr) and ast.unparse(st.value) == "self.savedb()" for st in t.finalbody) for t in loop_try)
+    chk.static("qserve.Main.run.saves_in_finally", saves, "savedb() is an unconditional statement of the finally block around the server loop")
     ld = ast.unparse(source.module(QSERVE).find("Main.loaddb"))
     chk.static("qserve.Main.loaddb.loads_the_saved_file_when_present", "if qpath and os.path.exists(qpath):" in ld and "self.db = pickle.load(q_file)" in ld, "loaddb restores whenever the file exists")
 
@@ -306,10 +309,181 @@ def bounded(chk):
                        [{"detail": r["failure"]["detail"], "witness": r["failure"], "class": "restore"}] if r["failure"] else [], r["samples"])
 
 
+def p_main_dataflow(chk):
+    """qserve.Main: the queue the request handlers serve is the one loaded from the data directory, and the one saved on
+    the way out is that same object.  Decided on the AST: loaddb() runs in __init__ (before run() can bind the handler
+    class), `self.db` is assigned in loaddb only, the handler class binds workq / db from self.db, savedb dumps self.db."""
+    import ast
+    from pyvc import source
+    m = source.module(QSERVE)
+    cls = next(n for n in ast.walk(m.tree) if isinstance(n, ast.ClassDef) and n.name == "Main")
+    fns = {f.name: f for f in cls.body if isinstance(f, ast.FunctionDef)}
+
+    def calls(fn, name):
+        return [n for n in ast.walk(fn) if isinstance(n, ast.Call) and ast.unparse(n.func) == name]
+    init_loads = any(isinstance(st, ast.Expr) and isinstance(st.value, ast.Call) and ast.unparse(st.value.func) == "self.loaddb" for st in fns["__init__"].body)
+    chk.static("qserve.Main.__init__.loads_the_saved_state", init_loads, "self.loaddb() is a statement of __init__",
+               {"__init__": ast.unparse(fns["__init__"])[:300]}, "main-dataflow", None if init_loads else False)
+    writers = sorted({f.name for f in fns.values() for n in ast.walk(f) if isinstance(n, ast.Attribute) and isinstance(n.ctx, ast.Store) and n.attr == "db"
+                      and ast.unparse(n.value) == "self"})
+    ok2 = writers == ["loaddb"] and not calls(fns["run"], "self.loaddb")
+    chk.static("qserve.Main.db_is_bound_by_loaddb_only", ok2, f"functions assigning self.db: {writers}; loaddb() calls inside run(): {len(calls(fns['run'], 'self.loaddb'))}",
+               {"writers": writers}, "main-dataflow", None if ok2 else False)
+    handler = next((n for n in ast.walk(fns["run"]) if isinstance(n, ast.ClassDef) and n.name == "Handler"), None)
+    binds = {} if handler is None else {t.id: ast.unparse(st.value) for st in handler.body if isinstance(st, ast.Assign) for t in st.targets if isinstance(t, ast.Name)}
+    ok3 = binds.get("workq") == "self.db.workq" and binds.get("db") == "self.db"
+    chk.static("qserve.Main.run.handler_serves_the_loaded_queue", ok3, f"class attributes of the request handler: {binds}", {"binds": binds}, "main-dataflow", None if ok3 else False)
+
+
+def server_restart_case():
+    """the real server, stopped (KeyboardInterrupt -> savedb in run()'s finally) and started again on the same data
+    directory, asked over its own socket protocol: what it knew before the restart it knows afterwards"""
+    import json
+    import logging
+    import shutil
+    import tempfile
+    import gevent
+    from gevent import socket
+    from qs import qserve
+    logging.disable(logging.CRITICAL)
+
+    class Client:
+        def __init__(self, port):
+            self.sock = socket.create_connection(("127.0.0.1", port))
+            self.f = self.sock.makefile("rw")
+
+        def __call__(self, name, **kw):
+            self.f.write(json.dumps((name, kw)) + "\n")
+            self.f.flush()
+            with gevent.Timeout(10):
+                d = json.loads(self.f.readline())
+            if d.get("error"):
+                raise RuntimeError(d["error"])
+            return d["result"]
+
+    class Run:
+        def __init__(self, data_dir):
+            self.main = qserve.Main(0, "127.0.0.1", data_dir, set())
+            self.gr = gevent.spawn(self.main.run)
+            with gevent.Timeout(10):
+                while not getattr(self.main, "server", None) or not self.main.port:
+                    gevent.sleep(0.01)
+            gevent.sleep(0.05)
+
+        def stop(self):
+            self.gr.kill(KeyboardInterrupt, block=True, timeout=15)
+
+    def strip(d):
+        return {k: v for k, v in d.items() if k != "deadline"} if isinstance(d, dict) else d
+    data_dir = tempfile.mkdtemp(prefix="verif_c18_")
+    n = 0
+    try:
+        r1 = Run(data_dir)
+        c, w = Client(r1.main.port), Client(r1.main.port)
+        id1 = c("qadd", channel="render", payload="p1")
+        id2 = c("qadd", channel="render", payload="p2")
+        c("qadd", channel="render", payload="p3", jobid="book")
+        w("qpull", channels=["render"])
+        w("qfinish", jobid=id1, result={"pages": 12})
+        c("qsetinfo", jobid=id2, info={"progress": 40})
+        before = {jid: strip(c("qinfo", jobid=jid)) for jid in (id1, id2, "book")}
+        r1.stop()
+        r2 = Run(data_dir)
+        c, w = Client(r2.main.port), Client(r2.main.port)
+        for jid in (id1, id2, "book"):
+            n += 1
+            got = strip(c("qinfo", jobid=jid))
+            if got != before[jid]:
+                return n, {"detail": f"after a restart of the real server qinfo({jid!r}) = {got!r}, before: {before[jid]!r}",
+                           "witness": {"history": "qadd x3, qpull, qfinish, qsetinfo, stop (Ctrl-C), start, qinfo"}, "class": "server-restart"}
+        n += 1
+        new_id = c("qadd", channel="render", payload="p4")
+        if new_id in (id1, id2):
+            return n, {"detail": f"after a restart a new job gets the used id {new_id!r}", "witness": {"history": "qadd x3, stop, start, qadd"}, "class": "server-restart"}
+        n += 1
+        pulled = None
+        with gevent.Timeout(2, False):
+            pulled = w("qpull", channels=["render"])
+        if not pulled or pulled.get("payload") != "p2":
+            return n, {"detail": f"after a restart the next pulled job is {pulled and pulled.get('payload')!r}, expected the oldest unfinished one ('p2')",
+                       "witness": {"history": "qadd x3, qpull, qfinish, stop, start, qpull"}, "class": "server-restart"}
+        r2.stop()
+        r3 = Run(data_dir)
+        c = Client(r3.main.port)
+        n += 1
+        got = c("qinfo", jobid=new_id)
+        r3.stop()
+        if not got or got.get("payload") != "p4":
+            return n, {"detail": f"a job added after the first restart is gone after the second: qinfo({new_id!r}) = {got!r}",
+                       "witness": {"history": "start, qadd, stop, start, qinfo"}, "class": "server-restart"}
+    except Exception as e:  # noqa: BLE001
+        return n + 1, {"detail": f"restart scenario raised {type(e).__name__}: {e}", "witness": {"history": "see detail"}, "class": "server-restart"}
+    finally:
+        shutil.rmtree(data_dir, ignore_errors=True)
+    return n, None
+
+
+def server_signal_case():
+    """`python -m qs -d DIR` stopped with SIGINT (Ctrl-C) and with SIGTERM (what a supervisor sends): the saved state holds the job"""
+    import os, pickle, shutil, signal, socket, subprocess, sys, tempfile, time
+    from qs import rpcclient
+    n = 0
+    for sig in (signal.SIGINT, signal.SIGTERM):
+        n += 1
+        d = tempfile.mkdtemp(prefix="verif_c18_")
+        s_ = socket.socket()
+        s_.bind(("127.0.0.1", 0))
+        port = s_.getsockname()[1]
+        s_.close()
+        p = subprocess.Popen([sys.executable, "-m", "qs", "-p", str(port), "-i", "127.0.0.1", "-d", d], stdout=subprocess.DEVNULL, stderr=subprocess.DEVNULL, env=os.environ)
+        try:
+            c = rpcclient.ServerProxy(host="127.0.0.1", port=port)
+            jid = None
+            for _ in range(150):
+                try:
+                    jid = c.qadd(channel="render", payload="p1")
+                    break
+                except OSError:
+                    time.sleep(0.1)
+            if jid is None:
+                return n, {"detail": "the server process did not come up", "witness": {"signal": sig.name}, "class": "server-signal"}
+            p.send_signal(sig)
+            try:
+                p.wait(timeout=20)
+            except subprocess.TimeoutExpired:
+                return n, {"detail": f"the server did not stop within 20 s after {sig.name}", "witness": {"signal": sig.name}, "class": "server-signal"}
+            f = os.path.join(d, "workq.pickle")
+            jobs_saved = None
+            if os.path.exists(f):
+                try:
+                    with open(f, "rb") as fh:
+                        jobs_saved = sorted(pickle.load(fh).workq.id2job)
+                except Exception as e:  # noqa: BLE001
+                    jobs_saved = f"unreadable: {type(e).__name__}"
+            if jobs_saved != [jid]:
+                return n, {"detail": f"server stopped with {sig.name} after qadd -> job {jid}: saved state holds {jobs_saved!r}",
+                           "witness": {"signal": sig.name, "history": "start, qadd, stop"}, "class": "server-signal"}
+        finally:
+            if p.poll() is None:
+                p.kill()
+            shutil.rmtree(d, ignore_errors=True)
+    return n, None
+
+
+def bounded_server(chk):
+    n2, f2 = server_signal_case()
+    chk.bounded_result("server_process_stopped_by_signal", n2, n2, True,
+                       "`python -m qs -d DIR` in a subprocess, one job added, stopped with SIGINT and with SIGTERM: the saved state holds the job", [f2] if f2 else [])
+    n, f = server_restart_case()
+    chk.bounded_result("real_server_stopped_and_started_again", n, n, True,
+                       "qserve.Main run three times in-process on one data directory (stopped by KeyboardInterrupt), driven over its JSON line protocol on a local socket: job snapshots, id counter, hand-out order, jobs added between restarts",
+                       [f] if f else [])
+
+
 def run(chk):
     import os
     only = os.environ.get("VERIF_ONLY")
-    for name, fn in [("job", p_job_roundtrip), ("workq", p_workq_roundtrip), ("savedb", p_savedb), ("bounded", bounded)]:
+    for name, fn in [("job", p_job_roundtrip), ("workq", p_workq_roundtrip), ("savedb", p_savedb), ("main", p_main_dataflow), ("bounded", bounded), ("server", bounded_server)]:
         if only and name not in only.split(","):
             continue
         fn(chk)
